@@ -226,7 +226,8 @@ H_ETransfer(s, r, l) ==
        \* already waiting then (they may have been counted in that flow).
        \* (a delivery that had credit while it was waiting inside the endpoint -- for the session window or a full channel -- has taken
        \*  that credit; a later flow that lowers the limit does not call it back, exactly as for a transfer in flight)
-       + Chk("C08_WithinCredit", ~first \/ (y.limit >= 0 /\ (y.fBase + Max(0, y.fWired - y.fN) < y.limit \/ y.owed > 0)), l, "")
+       + Chk("C08_WithinCredit", ~first \/ (y.limit >= 0 /\ (y.fBase + Max(0, y.fWired - y.fN) < y.limit \/ y.owed > 0)), l,
+             IF \E j \in DOMAIN s.ls : j < k /\ s.ls[j].ech = y.ech /\ s.ls[j].eh = y.eh /\ s.ls[j].eDet /\ s.ls[j].detQueued THEN "queued_at_detach" ELSE "")
        + Chk("C01_PayloadContinuity", r.pl.ok, l, "")
        \* deliveries leave in the order the application submitted them, none twice (message numbers grow per link)
        + Chk("C07_Fifo", r.pl.ok /\ (~first \/ r.pl.m > y.lastM), l, "")
